@@ -7,7 +7,7 @@ args = sys.argv[1:]
 wd = core.workdir("macdev")
 core.run_vh("mac", wd, shards=16, extra=args)
 kf = os.path.join(wd, "known.json")
-open(kf, "w").write(json.dumps(["no-usable-channel", "send-misuse-panic"]))
+open(kf, "w").write(json.dumps(["join-undefined-datarate-panic"]))
 traces = sorted(glob.glob(os.path.join(wd, "mac.*.ndjson")))
 res = core.validate_traces("MacTrace.tla", "MacTrace.cfg", traces, "macdev", env={"KNOWN": kf})
 c = collections.Counter()
